@@ -15,6 +15,8 @@ mod models_full;
 #[cfg(feature = "full")]
 mod proofrun;
 #[cfg(feature = "full")]
+mod scen_full;
+#[cfg(feature = "full")]
 mod scen_proof;
 #[cfg(feature = "full")]
 mod stone_loader;
@@ -103,7 +105,11 @@ fn main() {
                 violation_classes: Default::default(),
                 start: std::time::Instant::now(),
             };
-            dispatch(&mut ctx);
+            let r = std::panic::catch_unwind(std::panic::AssertUnwindSafe(|| dispatch(&mut ctx)));
+            if r.is_err() {
+                let (loc, msg) = monitor::last_panic().unwrap_or(("<unknown>".into(), "<unknown>".into()));
+                ctx.harness_error(&format!("harness panic at {loc}: {msg}"));
+            }
             ctx.finish();
         }
         "replay" => {
@@ -176,6 +182,12 @@ fn dispatch(ctx: &mut Ctx) {
         "C17" => scen_proof::c17(ctx),
         #[cfg(feature = "full")]
         "C18" => scen_proof::c18(ctx),
+        #[cfg(feature = "full")]
+        "C03" => scen_full::c03(ctx),
+        #[cfg(feature = "full")]
+        "C13" => scen_full::c13(ctx),
+        #[cfg(feature = "full")]
+        "C14" => scen_full::c14(ctx),
         _ => {
             eprintln!("property {p} is not served by this binary ({})", variant_name());
             std::process::exit(2);
@@ -190,8 +202,11 @@ fn replay(rep: &serde_json::Value) -> Result<(bool, String), String> {
     }
     #[cfg(feature = "full")]
     {
-        if scenario.starts_with("c02.") || scenario.starts_with("c17.") || scenario.starts_with("c18.") {
+        if scenario.starts_with("c02.") || scenario.starts_with("c17.") || scenario.starts_with("c18.") || scenario.starts_with("c03.") || scenario.starts_with("c01.") {
             return scen_proof::replay(rep);
+        }
+        if scenario.starts_with("c13.") || scenario.starts_with("c14.") {
+            return scen_full::replay(rep);
         }
     }
     Err(format!("unknown scenario {scenario}"))
